@@ -43,7 +43,25 @@ def _c05_parts(tier):
              "per_fork": 1, "wall_s": 90 if q else 1200}]
 
 
+def _c06_parts(tier):
+    from sim.engines import c06
+    q = tier == "quick"
+    return [{"engine": "c06", "params": c06.default_params(tier), "runs": 3_000 if q else 60_000,
+             "per_fork": 1, "wall_s": 120 if q else 1500, "run_timeout_s": 120}]
+
+
 SPECS = {
+    "C06": {
+        "level": "fault_enumeration",
+        "parts": _c06_parts,
+        "rule": "case = (program, fault index set): the program is rendered fault-free once to number its user-code "
+                "invocations 1..N, then once per selected index i with invocation i raising (quick: up to 6 drawn "
+                "indices, thorough: every index up to 60), each followed by a fault-free render; distinct = distinct "
+                "program skeleton; non-trivial = the pristine render succeeds and has at least one user callback",
+        "real_vs_stub": RENDER_REAL,
+        "assumptions": ["exceptions are Exception subclasses (BaseException such as KeyboardInterrupt is out of scope)",
+                        "the path annotation is checked only when the callback order equals the reference model's"],
+    },
     "C05": {
         "level": "exploration",
         "parts": _c05_parts,
@@ -83,4 +101,80 @@ SPECS = {
         "no_faults_reason": "none applicable to part A (pure data structure); part B injects compile failures",
         "assumptions": ["reference LRU (OrderedDict) is the specification of 'bounded LRU'"],
     },
+}
+
+
+# ---------------------------------------------------------------------------------------------------------------
+# MANIFEST material
+# ---------------------------------------------------------------------------------------------------------------
+_DST = "deterministic simulation: seeded search over {what} with {faults}; reference-model refinement; shrinking to a replay file"
+
+MANIFEST_META = {
+    "C01": {
+        "engine": "render-sim", "design_ref": "DESIGN.md 4/C01, 3.4, Appendix A",
+        "technique": _DST.format(what="generated component programs x history prefixes x id streams x cache knobs",
+                                 faults="injected callback exceptions / cache clears / GC in the history prefix"),
+        "level_text": "Seeded exploration: every completed render of a generated program (three entry variants) must equal a "
+                      "lexical reference renderer, after a drawn history of other (also failing) renders. Sampling along the "
+                      "program axis, no stronger than generative testing there; the simulation adds history, ids and knobs.",
+        "level_note": "Trusted: the reference renderer (sim/model/ref.py) as the meaning of the statement; the generated "
+                      "language (Appendix A) as the domain; step budget as hang verdict.",
+    },
+    "C05": {
+        "engine": "render-sim", "design_ref": "DESIGN.md 4/C05",
+        "technique": _DST.format(what="histories of provider/consumer page renders in one process",
+                                 faults="injected callback exceptions and GC between renders"),
+        "level_text": "Seeded exploration of render histories; each successful render must equal the provider-stack model and "
+                      "leave the provide registries as it found them, whatever earlier (failing) renders left behind.",
+        "level_note": "Trusted: provider stack along the rendered structure as the meaning of 'nearest enclosing provider'.",
+    },
+    "C06": {
+        "engine": "render-sim", "design_ref": "DESIGN.md 4/C06, 3.7, 3.8",
+        "technique": "deterministic simulation with fault enumeration: exception injected at every numbered user-callback "
+                     "invocation of a generated program (quick: up to 6 drawn indices), oracles on registries, weakref "
+                     "liveness, object growth, follow-up render; shrinking to a replay file",
+        "level_text": "Fault enumeration over callback positions per sampled program (complete per program in the thorough tier "
+                      "up to 60 positions), sampled over programs and exception types.",
+        "level_note": "Trusted: gc.collect() + weakrefs as reachability oracle; module-level containers + gc object count as "
+                      "growth measure; BaseException faults out of scope.",
+    },
+    "C15": {
+        "engine": "state-sim", "design_ref": "DESIGN.md 4/C15",
+        "technique": "deterministic simulation (fault-free corner): seeded operation histories against a dict/tag-set reference "
+                     "model, step by step, with shrinking and replay",
+        "level_text": "Seeded exploration of operation histories (1-2 registries x formatter x protected tags); no fault, clock or "
+                      "thread occurs in the statement, so only histories are sampled.",
+        "level_note": "Trusted: dict + derived tag set as specification; private Library per registry.",
+    },
+    "C18": {
+        "engine": "state-sim", "design_ref": "DESIGN.md 4/C18",
+        "technique": "deterministic simulation: seeded get/set/has/clear histories x cache-size knob against a reference LRU; "
+                     "cross-size transparency of cached_template / component renders with injected compile failures",
+        "level_text": "Seeded exploration of histories and the cache-size knob; structural invariant + reference model after every op.",
+        "level_note": "Trusted: OrderedDict reference LRU; thread races on the cache are judged under C07.",
+    },
+}
+
+NOT_APPLICABLE = {
+    "C02": "pure function of (tag text, context): the parser/resolver reads no shared state, id, cache, clock or file; there is "
+           "no schedule, history or fault for a simulator to sample (input-space property; generative testing territory)",
+    "C03": "not claimed yet (build in progress)",
+    "C04": "not claimed yet (build in progress)",
+    "C07": "not claimed yet (build in progress)",
+    "C08": "render_dependencies is a pure bytes->bytes function given the set of component classes; the middleware's async "
+           "wrapper awaits once and calls the same synchronous function; no history, schedule or fault dimension",
+    "C09": "the lexer is a pure function of the template source (tag_re is swapped once at start-up, not per render)",
+    "C10": "equality with unpatched Django / the hand-flattened template family is a function of the template family and context "
+           "only; the patch is installed once and touches no cross-render state that varies; needs generative differential "
+           "testing, a different technique",
+    "C11": "argument binding is a pure function of (signature, argument list)",
+    "C12": "totality and a time bound of pure parsing functions: input fuzzing / performance, about which deterministic "
+           "simulation decides nothing",
+    "C13": "escaping, merge order and end-tag refusal are pure functions of the given dicts and strings",
+    "C14": "not claimed yet (build in progress)",
+    "C16": "not claimed yet (build in progress)",
+    "C17": "what the finder exposes is a pure function of (directory tree, settings, lookup path); read-only single-shot scan, "
+           "nothing carried between calls, insensitive to listing order",
+    "C19": "not claimed yet (build in progress)",
+    "C20": "get_component_files is a pure function of (directory tree, settings); read-only single-shot scan",
 }
